@@ -2,6 +2,7 @@ package regclient
 
 import (
 	"archive/tar"
+	"bytes"
 	"cmp"
 	"compress/gzip"
 	"context"
@@ -1506,15 +1507,15 @@ func (rc *RegClient) imageImportOCIHandleManifest(ctx context.Context, r ref.Ref
 		filename := tarOCILayoutDescPath(d)
 		if !trd.processed[filename] && trd.handlers[filename] == nil {
 			trd.handlers[filename] = func(header *tar.Header, trd *tarReadData) error {
-				b, err := io.ReadAll(trd.tr)
-				if err != nil {
-					return err
-				}
 				switch d.MediaType {
 				case mediatype.Docker1Manifest, mediatype.Docker1ManifestSigned,
 					mediatype.Docker2Manifest, mediatype.Docker2ManifestList,
 					mediatype.OCI1Manifest, mediatype.OCI1ManifestList:
 					// known manifest media types
+					b, err := io.ReadAll(trd.tr)
+					if err != nil {
+						return err
+					}
 					md, err := manifest.New(manifest.WithDesc(d), manifest.WithRaw(b))
 					if err != nil {
 						return err
@@ -1528,11 +1529,20 @@ func (rc *RegClient) imageImportOCIHandleManifest(ctx context.Context, r ref.Ref
 					return rc.imageImportBlob(ctx, r, d, trd)
 				default:
 					// attempt manifest import, fall back to blob import
+					b, err := io.ReadAll(trd.tr)
+					if err != nil {
+						return err
+					}
 					md, err := manifest.New(manifest.WithDesc(d), manifest.WithRaw(b))
 					if err == nil {
 						return rc.imageImportOCIHandleManifest(ctx, r, md, trd, true, child)
 					}
-					return rc.imageImportBlob(ctx, r, d, trd)
+					// the entry was already read, import those bytes
+					if _, err := rc.BlobHead(ctx, r, d); err == nil {
+						return nil
+					}
+					_, err = rc.BlobPut(ctx, r, d, bytes.NewReader(b))
+					return err
 				}
 			}
 		}
